@@ -1,4 +1,4 @@
-SPECIFICATION Spec
+SPECIFICATION ASpec
 CONSTANTS
   MaxLen = 4
   CapC = 40
@@ -9,7 +9,7 @@ CONSTANTS
   Lim0 = 3
   Lim1 = 4
   Ns = {1, 2, 3, 4}
-  Classes = {"s", "h", "n", "o"}
+  Classes = {"s", "n", "o"}
   MaxBig = 1
   MaxBl = 1
   MaxEx = 0
@@ -18,7 +18,6 @@ CONSTANTS
   Bls = {TRUE, FALSE}
   Exs = {FALSE}
   Ops = {"Pack"}
-  EmitOn = FALSE
-VIEW view
-INVARIANTS TypeOK CountSizeGroupOrder SkipIsRemoval Greedy ExpireInv
+  EmitOn = TRUE
+INVARIANT Export
 CHECK_DEADLOCK FALSE
